@@ -320,6 +320,20 @@ def oracle_all(case, obs):
         # --- pacer sanity
         if o.tokens > o.cap:
             msgs.append("tokens: op %d pacer tokens %d above capacity %d" % (k, o.tokens, o.cap))
+        # --- RFC 9002 6.1.2: the time threshold is 9/8 * max(smoothed_rtt, latest_rtt), at least kGranularity (1 ms); the value
+        #     the loss detector works with is an input of the Coq model, so it is checked here against the estimator's own fields
+        if not o.short:
+            want_ld = max(1000000, max(o.srtt, o.latest) * 9 // 8)
+            # the snapshot reads the threshold and the estimator at slightly different moments of one operation (an RTT
+            # back-off or sample inside the op moves the estimator): the value must match the estimator before or after it
+            alt = [want_ld]
+            if prev is not None and not prev.short:
+                alt.append(max(1000000, max(prev.srtt, prev.latest) * 9 // 8))
+                alt.append(max(1000000, max(o.srtt, prev.latest) * 9 // 8))
+                alt.append(max(1000000, max(prev.srtt, o.latest) * 9 // 8))
+            if all(abs(o.ld - w) > 2 + w // 500000 for w in alt):       # f32 multiplication: relative error below 2e-6
+                msgs.append("lossdelay: op %d time threshold %d ns, RFC 9002 6.1.2 gives 9/8 * max(smoothed %d, latest %d) = %d ns (>= 1 ms)"
+                            % (k, o.ld, o.srtt, o.latest, want_ld))
         # --- RFC 9002 B.7: the stored ECN-CE counter of a space is the highest value reported so far: it never goes down
         #     (an older ACK overtaken by a newer one carries a smaller count), and it only takes values the peer reported
         if prev is not None and not prev.short and not o.short:
